@@ -38,15 +38,15 @@ PROPS = {
                 gen=parse_family('C04', 1500, 40000), flavours=['c'],
                 rule='random grammars with costs 0-5 (ties included); sentences <= 7 tokens; cost flag on, one_parse in {0,1}, parse_free given or NULL; denoted set vs argmin of total cost over all translations, every cost field vs the additive law',
                 assumptions=COMMON_ASSUME + ['prune theorems are about the Lean pruning model of a forest (Spec/Forest.lean); its tie to find_minimal_translation is the sampled comparison of results']),
-    'C06': dict(level='proof', theorem_modules=['C01'], min_theorems=8, tags=['C06'], crash_counts=True,
+    'C06': dict(level='proof', theorem_modules=['C06', 'C01'], min_theorems=12, tags=['C06'], crash_counts=True,
                 gen=parse_family('C06', 1500, 40000, maxlen=9), flavours=['c'],
                 rule='grammars with and without error rules; non-sentences (mutated sentences, prefixes, random strings); recovery off (exact argument tuple) and on (well-formedness of every callback, strictly increasing error tokens, first error token = model)',
                 assumptions=COMMON_ASSUME + ['firstError_iff_viable is proved for lookahead 0/1 under productivity of every nonterminal (strict grammars)']),
-    'C07': dict(level='proof', theorem_modules=['C01', 'C02'], min_theorems=8, tags=['C07'], crash_counts=True,
+    'C07': dict(level='proof', theorem_modules=['C07', 'C06', 'C02'], min_theorems=12, tags=['C07'], crash_counts=True,
                 gen=parse_family('C07', 1500, 40000, maxlen=9), flavours=['c'],
                 rule='grammars with 0..3 error rules, non-sentences <= 9 tokens, recovery_match 1..5, one/all parses, lookahead 0-2: return code, non-NULL tree, tree vs translations of the repaired input (read off the model parse list), ignored-token accounting, callbacks and final parse list vs the step-for-step recovery model',
-                assumptions=COMMON_ASSUME + ['the recovery search (Model/Recovery.lean) is an executable model validated by correspondence; termination/minimality theorems about it are not yet proved (see DESIGN.md)']),
-    'C08': dict(level='proof', theorem_modules=['C01'], min_theorems=8, tags=['C08'], crash_counts=True,
+                assumptions=COMMON_ASSUME + ['theorems about the recovery model hold under r.ok (the search finished within its fuel and found a best state); termination and minimality of the search are not proved']),
+    'C08': dict(level='proof', theorem_modules=['C06', 'C07'], min_theorems=8, tags=['C08'], crash_counts=True,
                 gen=parse_family('C08', 1500, 40000, maxlen=9), flavours=['c'],
                 rule='grammars with error rules, non-sentences <= 9 tokens, recovery_match 1..5, lookahead 0-2: the number of tokens the first callback reports ignored vs the minimum over all simple recoveries (back position with `. error` x forward skip) computed by brute force from the statement over the model sets',
                 assumptions=COMMON_ASSUME + ['recover_minimal (search invariant) is not proved; the inequality is validated per run against the oracle defined from the statement (simpleRecoveryCosts)']),
